@@ -87,3 +87,22 @@ for _cls in ("BallTree", "KDTree"):
                  ensures=[f"same(result, meth('query_radius', summary('{_Q}_current_tree', self), {_prep}, {_r}, return_distance, True, sort_results))"],
                  options={"abstract": True, "summaries": [_N + "_prepare_xyz_for_query", _N + "_prepare_xy_for_query", _Q + "_current_tree"]},
                  raises=[("AssertionError", "r < 0", "iff")])
+
+
+# ---- _prepare_xy_for_query (C11): the query points handed to the sklearn tree are the caller's points - (lat, lon) for the haversine
+# metric, (lon, lat) otherwise, in radians - and the caller's array is left as supplied (frame)
+for _metric, _swap in (("haversine", True), ("minkowski", False)):
+    for _rad in (True, False):
+        _c = (lambda x: x) if _rad else (lambda x: f"deg2rad({x})")
+        for _rank in (2, 1):
+            _src = (lambda i, c: f"xy[{i}, {c}]") if _rank == 2 else (lambda i, c: f"xy[{c}]")
+            contract(_N + "_prepare_xy_for_query", props=["C11"], variant=f"{_metric},{'rad' if _rad else 'deg'},rank{_rank}",
+                     sizes=["n_q"],
+                     params={"xy": "arr(real, n_q, 2, owner='caller')" if _rank == 2 else "arr(real, 2, owner='caller')",
+                             "use_radians": repr(_rad), "distance_metric": repr(_metric)},
+                     returns="opaque",
+                     ensures=["shape(result) == (n_q, 2)" if _rank == 2 else "shape(result) == (1, 2)",
+                              ("forall(0, n_q, lambda i: " if _rank == 2 else "forall(0, 1, lambda i: ") +
+                              f"eqr(result[i, 0], {_c(_src('i', 1 if _swap else 0))}) and eqr(result[i, 1], {_c(_src('i', 0 if _swap else 1))}))"],
+                     options={"frames": True},
+                     raises=[("Exception", "False", "only_if")])
